@@ -3,6 +3,7 @@ CONSTANTS
  MaxN = 3
  PairN = {2}
  InterN = {4}
+  WideN = {5}
  TripleN = {}
 INVARIANT UnitaryColumns
 CHECK_DEADLOCK FALSE
